@@ -71,6 +71,31 @@ using namespace doc;
 
 namespace {
 
+// Notes and failure messages are pure ASCII (every byte outside 0x20..0x7e is written \\xNN): the engine
+// truncates them at fixed byte counts and the driver decodes them as UTF-8.
+std::string aesc(const std::string &s) {
+    std::string o = "\"";
+    for (unsigned char ch : s) {
+        if (ch == '"' || ch == '\\') { o += '\\'; o += (char)ch; }
+        else if (ch < 0x20 || ch >= 0x7f) { char b[8]; snprintf(b, sizeof b, "\\x%02x", ch); o += b; }
+        else o += (char)ch;
+    }
+    return o + "\"";
+}
+std::string ascii(const std::string &s) {      // same for text that is already a message
+    std::string o;
+    for (unsigned char ch : s) { if ((ch < 0x20 && ch != '\n') || ch >= 0x7f) { char b[8]; snprintf(b, sizeof b, "\\x%02x", ch); o += b; } else o += (char)ch; }
+    return o;
+}
+std::string ashow(const NodeP &n) {
+    if (!n) return "~";
+    switch (n->kind) {
+    case Node::SCALAR: return aesc(n->sval);
+    case Node::MAP: { std::string o = "{"; bool f = true; for (auto &p : n->map) { if (!f) o += ", "; f = false; o += aesc(p.first) + ": " + ashow(p.second); } return o + "}"; }
+    default: { std::string o = "["; bool f = true; for (auto &e : n->list) { if (!f) o += ", "; f = false; o += ashow(e); } return o + "]"; }
+    }
+}
+
 // ---------------------------------------------------------------- code point classes --
 enum Cls { K_ALNUM, K_PUNCT, K_SPACE, K_NL, K_TAB, K_CR, K_C0, K_DEL, K_C1, K_NEL, K_LSPS, K_BOM, K_2B, K_3B, K_NONCHAR, K_ASTRAL, K_N };
 const char *cls_name[K_N] = {"alnum", "punct", "space", "LF", "TAB", "CR", "C0-other", "DEL", "C1", "NEL", "LS-PS", "BOM", "2-byte", "3-byte", "nonchar-FFFE-FFFF", "astral"};
@@ -409,23 +434,23 @@ struct Builder {
 
     void do_set(vnaproperty_t **anchor, const std::string &s) {
         int rc;
-        if (anchor) { c.note("  %s: vnaproperty_set(<anchor>, %s)", what, esc(s).c_str()); rc = vnaproperty_set(anchor, "%s", s.c_str()); }
-        else if (vcp) { c.note("  %s: vnacal_property_set(vcp, %d, %s)", what, ci, esc(s).c_str()); rc = vnacal_property_set(vcp, ci, "%s", s.c_str()); }
-        else { c.note("  %s: vnaproperty_set(&root, %s)", what, esc(s).c_str()); rc = vnaproperty_set(root, "%s", s.c_str()); }
-        PBT_CHECK(c, rc == 0, "C14.build_refused", "%s: set(%s) failed: %s", what, esc(s).c_str(), strerror(errno));
+        if (anchor) { c.note("  %s: vnaproperty_set(<anchor>, %s)", what, aesc(s).c_str()); rc = vnaproperty_set(anchor, "%s", s.c_str()); }
+        else if (vcp) { c.note("  %s: vnacal_property_set(vcp, %d, %s)", what, ci, aesc(s).c_str()); rc = vnacal_property_set(vcp, ci, "%s", s.c_str()); }
+        else { c.note("  %s: vnaproperty_set(&root, %s)", what, aesc(s).c_str()); rc = vnaproperty_set(root, "%s", s.c_str()); }
+        PBT_CHECK(c, rc == 0, "C14.build_refused", "%s: set(%s) failed: %s", what, aesc(s).c_str(), strerror(errno));
     }
     vnaproperty_t **do_sub(vnaproperty_t **anchor, const std::string &s) {
         vnaproperty_t **a;
-        if (anchor) { c.note("  %s: vnaproperty_set_subtree(<anchor>, %s)", what, esc(s).c_str()); a = vnaproperty_set_subtree(anchor, "%s", s.c_str()); }
-        else if (vcp) { c.note("  %s: vnacal_property_set_subtree(vcp, %d, %s)", what, ci, esc(s).c_str()); a = vnacal_property_set_subtree(vcp, ci, "%s", s.c_str()); }
-        else { c.note("  %s: vnaproperty_set_subtree(&root, %s)", what, esc(s).c_str()); a = vnaproperty_set_subtree(root, "%s", s.c_str()); }
-        PBT_CHECK(c, a != nullptr, "C14.build_refused", "%s: set_subtree(%s) failed: %s", what, esc(s).c_str(), strerror(errno));
+        if (anchor) { c.note("  %s: vnaproperty_set_subtree(<anchor>, %s)", what, aesc(s).c_str()); a = vnaproperty_set_subtree(anchor, "%s", s.c_str()); }
+        else if (vcp) { c.note("  %s: vnacal_property_set_subtree(vcp, %d, %s)", what, ci, aesc(s).c_str()); a = vnacal_property_set_subtree(vcp, ci, "%s", s.c_str()); }
+        else { c.note("  %s: vnaproperty_set_subtree(&root, %s)", what, aesc(s).c_str()); a = vnaproperty_set_subtree(root, "%s", s.c_str()); }
+        PBT_CHECK(c, a != nullptr, "C14.build_refused", "%s: set_subtree(%s) failed: %s", what, aesc(s).c_str(), strerror(errno));
         return a;
     }
     std::string quote(const std::string &k) {
         if (c.boolean()) return g.own_quote(k);
         char *q = vnaproperty_quote_key(k.c_str());
-        PBT_CHECK(c, q != nullptr, "C14.build_refused", "quote_key(%s) returned NULL", esc(k).c_str());
+        PBT_CHECK(c, q != nullptr, "C14.build_refused", "quote_key(%s) returned NULL", aesc(k).c_str());
         std::string s = q; free(q);
         return s;
     }
@@ -520,8 +545,8 @@ NodeP from_yamlcpp(const YAML::Node &y, std::string &why, int depth = 0) {
         for (YAML::const_iterator it = y.begin(); it != y.end(); ++it) {
             if (!it->first.IsScalar()) { why = std::string("a map key is not a YAML string scalar (node type ") + (it->first.IsNull() ? "null" : "collection") + ")"; return nullptr; }
             std::string raw = fix_yamlcpp(it->first.Scalar()), k, kw;
-            if (!unquote_key(raw, k, kw)) { why = "key text " + esc(raw) + " is not one quoted descriptor key: " + kw; return nullptr; }
-            if (m->find(k)) { why = "duplicate key " + esc(k); return nullptr; }
+            if (!unquote_key(raw, k, kw)) { why = "key text " + aesc(raw) + " is not one quoted descriptor key: " + kw; return nullptr; }
+            if (m->find(k)) { why = "duplicate key " + aesc(k); return nullptr; }
             m->map.push_back({k, from_yamlcpp(it->second, why, depth + 1)});
             if (!why.empty()) return nullptr;
         }
@@ -535,13 +560,13 @@ std::string clip(const std::string &s, size_t n = 700) { return s.size() <= n ? 
 
 // first difference between two models, as a path (for readable messages)
 std::string first_diff(const NodeP &a, const NodeP &b, const std::string &path = ".") {
-    if (!a || !b) return (!a && !b) ? "" : path + ": " + clip(show(a), 200) + " vs " + clip(show(b), 200);
-    if (a->kind != b->kind) return path + ": kind " + clip(show(a), 200) + " vs " + clip(show(b), 200);
-    if (a->kind == Node::SCALAR) return a->sval == b->sval ? "" : path + ": " + clip(esc(a->sval), 300) + " vs " + clip(esc(b->sval), 300);
+    if (!a || !b) return (!a && !b) ? "" : path + ": " + clip(ashow(a), 200) + " vs " + clip(ashow(b), 200);
+    if (a->kind != b->kind) return path + ": kind " + clip(ashow(a), 200) + " vs " + clip(ashow(b), 200);
+    if (a->kind == Node::SCALAR) return a->sval == b->sval ? "" : path + ": " + clip(aesc(a->sval), 300) + " vs " + clip(aesc(b->sval), 300);
     if (a->kind == Node::MAP) {
         for (size_t i = 0; i < a->map.size() && i < b->map.size(); i++) {
-            if (a->map[i].first != b->map[i].first) return path + ": key #" + std::to_string(i) + " " + clip(esc(a->map[i].first), 200) + " vs " + clip(esc(b->map[i].first), 200);
-            std::string d = first_diff(a->map[i].second, b->map[i].second, path + "{" + clip(esc(a->map[i].first), 60) + "}");
+            if (a->map[i].first != b->map[i].first) return path + ": key #" + std::to_string(i) + " " + clip(aesc(a->map[i].first), 200) + " vs " + clip(aesc(b->map[i].first), 200);
+            std::string d = first_diff(a->map[i].second, b->map[i].second, path + "{" + clip(aesc(a->map[i].first), 60) + "}");
             if (!d.empty()) return d;
         }
         if (a->map.size() != b->map.size()) return path + ": " + std::to_string(a->map.size()) + " vs " + std::to_string(b->map.size()) + " keys";
@@ -569,12 +594,12 @@ struct H {
     void expect_tree(const vnaproperty_t *root, const NodeP &model, const char *code, const char *what, const std::string &text) {
         std::string why;
         NodeP got = read_tree(root, why);
-        if (!why.empty()) c.fail("C14.walk_failed", "%s: %s", what, why.c_str());
+        if (!why.empty()) c.fail("C14.walk_failed", "%s: %s", what, ascii(why).c_str());
         if (!equal(got, model))
-            c.fail(code, "%s: tree differs from the original at %s (first: read back, second: original)\n--- YAML text ---\n%s", what, first_diff(got, model).c_str(), clip(esc(text), 1500).c_str());
+            c.fail(code, "%s: tree differs from the original at %s (first: read back, second: original)\n--- YAML text ---\n%s", what, first_diff(got, model).c_str(), clip(aesc(text), 1500).c_str());
     }
     void expect_quiet(const ErrLog &log, const char *code, const char *what, const std::string &text) {
-        if (log.n_total() != 0) c.fail(code, "%s reported through the error callback: %s\n--- YAML text ---\n%s", what, clip(log.text(), 600).c_str(), clip(esc(text), 1500).c_str());
+        if (log.n_total() != 0) c.fail(code, "%s reported through the error callback: %s\n--- YAML text ---\n%s", what, clip(ascii(log.text()), 600).c_str(), clip(aesc(text), 1500).c_str());
     }
     void check_yamlcpp(const std::string &text, const NodeP &model, const char *what, const char *sub1 = nullptr, int idx = -1, const char *sub2 = nullptr) {
         NodeP got; std::string why;
@@ -587,11 +612,11 @@ struct H {
                 else { PBT_CHECK(c, z.IsDefined(), "C14.yamlcpp_file_shape", "%s: key %s missing", what, sub1); got = from_yamlcpp(z, why); }
             } else got = from_yamlcpp(y, why);
         } catch (const YAML::Exception &e) {
-            c.fail("C14.yamlcpp_parse_error", "%s: the independent YAML reader rejects the exported text: %s\n--- YAML text ---\n%s", what, e.what(), clip(esc(text), 1500).c_str());
+            c.fail("C14.yamlcpp_parse_error", "%s: the independent YAML reader rejects the exported text: %s\n--- YAML text ---\n%s", what, ascii(e.what()).c_str(), clip(aesc(text), 1500).c_str());
         }
-        if (!why.empty()) c.fail(why.find("quoted descriptor key") != std::string::npos ? "C14.yaml_key_not_quoted" : "C14.yamlcpp_structure", "%s: independent YAML reader: %s\n--- YAML text ---\n%s", what, why.c_str(), clip(esc(text), 1500).c_str());
+        if (!why.empty()) c.fail(why.find("quoted descriptor key") != std::string::npos ? "C14.yaml_key_not_quoted" : "C14.yamlcpp_structure", "%s: independent YAML reader: %s\n--- YAML text ---\n%s", what, ascii(why).c_str(), clip(aesc(text), 1500).c_str());
         if (!equal(got, model))
-            c.fail("C14.independent_reader_differs", "%s: an independent YAML reader (yaml-cpp) sees a different tree at %s (first: yaml-cpp, second: original)\n--- YAML text ---\n%s", what, first_diff(got, model).c_str(), clip(esc(text), 1500).c_str());
+            c.fail("C14.independent_reader_differs", "%s: an independent YAML reader (yaml-cpp) sees a different tree at %s (first: yaml-cpp, second: original)\n--- YAML text ---\n%s", what, first_diff(got, model).c_str(), clip(aesc(text), 1500).c_str());
     }
 
     // pre-existing content for the "replacing any existing content" clause of vnaproperty(3)
@@ -625,11 +650,11 @@ struct H {
             int rc = vnaproperty_export_yaml_to_file(t.root, out.fp, "export.yaml", errlog_fn, &log);
             int e = errno;
             text = out.finish();
-            PBT_CHECK(c, rc == 0, "C14.export_failed", "vnaproperty_export_yaml_to_file returned %d (errno %s; callback: %s) for %s", rc, strerror(e), clip(log.text(), 400).c_str(), clip(show(model), 1200).c_str());
+            PBT_CHECK(c, rc == 0, "C14.export_failed", "vnaproperty_export_yaml_to_file returned %d (errno %s; callback: %s) for %s", rc, strerror(e), clip(ascii(log.text()), 400).c_str(), clip(ashow(model), 1200).c_str());
             expect_quiet(log, "C14.export_reported_error", "successful export", text);
         }
-        c.note("exported YAML: %s", clip(esc(text), 1800).c_str());
-        PBT_CHECK(c, !text.empty() && text.find('\0') == std::string::npos && decode_utf8(text, nullptr), "C14.export_invalid_utf8", "exported text is empty, contains NUL or is not valid UTF-8: %s", clip(esc(text), 1500).c_str());
+        c.note("exported YAML: %s", clip(aesc(text), 1800).c_str());
+        PBT_CHECK(c, !text.empty() && text.find('\0') == std::string::npos && decode_utf8(text, nullptr), "C14.export_invalid_utf8", "exported text is empty, contains NUL or is not valid UTF-8: %s", clip(aesc(text), 1500).c_str());
         dump_corpus("yaml", text);
         // export must not change the tree
         expect_tree(t.root, model, "C14.export_modified_tree", "tree after export", text);
@@ -654,7 +679,7 @@ struct H {
             Tree r; ErrLog log;
             errno = 0;
             int rc = vnaproperty_import_yaml_from_string(&r.root, text.c_str(), errlog_fn, &log);
-            PBT_CHECK(c, rc == 0, "C14.import_string_failed", "vnaproperty_import_yaml_from_string refused the library's own export (errno %s; callback: %s)\n--- YAML text ---\n%s", strerror(errno), clip(log.text(), 500).c_str(), clip(esc(text), 1500).c_str());
+            PBT_CHECK(c, rc == 0, "C14.import_string_failed", "vnaproperty_import_yaml_from_string refused the library's own export (errno %s; callback: %s)\n--- YAML text ---\n%s", strerror(errno), clip(ascii(log.text()), 500).c_str(), clip(aesc(text), 1500).c_str());
             expect_quiet(log, "C14.import_reported_error", "successful import_yaml_from_string", text);
             expect_tree(r.root, model, "C14.import_string_differs", "import_yaml_from_string of the exported text", text);
         }
@@ -664,7 +689,7 @@ struct H {
             PBT_CHECK(c, in.fp != nullptr, "harness.error", "fmemopen failed");
             errno = 0;
             int rc = vnaproperty_import_yaml_from_file(&r.root, in.fp, "import.yaml", errlog_fn, &log);
-            PBT_CHECK(c, rc == 0, "C14.import_file_failed", "vnaproperty_import_yaml_from_file refused the library's own export (errno %s; callback: %s)\n--- YAML text ---\n%s", strerror(errno), clip(log.text(), 500).c_str(), clip(esc(text), 1500).c_str());
+            PBT_CHECK(c, rc == 0, "C14.import_file_failed", "vnaproperty_import_yaml_from_file refused the library's own export (errno %s; callback: %s)\n--- YAML text ---\n%s", strerror(errno), clip(ascii(log.text()), 500).c_str(), clip(aesc(text), 1500).c_str());
             expect_quiet(log, "C14.import_reported_error", "successful import_yaml_from_file", text);
             expect_tree(r.root, model, "C14.import_file_differs", "import_yaml_from_file of the exported text", text);
         }
@@ -677,7 +702,7 @@ struct H {
             int rc;
             if (from_file) { File in; in.fp = fmemopen((void *)text.data(), text.size(), "r"); PBT_CHECK(c, in.fp != nullptr, "harness.error", "fmemopen failed"); rc = vnaproperty_import_yaml_from_file(&r.root, in.fp, "import.yaml", errlog_fn, &log); }
             else rc = vnaproperty_import_yaml_from_string(&r.root, text.c_str(), errlog_fn, &log);
-            PBT_CHECK(c, rc == 0, "C14.import_string_failed", "import into a non-empty root failed (callback: %s)", clip(log.text(), 500).c_str());
+            PBT_CHECK(c, rc == 0, "C14.import_string_failed", "import into a non-empty root failed (callback: %s)", clip(ascii(log.text()), 500).c_str());
             expect_tree(r.root, model, "C14.import_not_replacing", from_file ? "import_yaml_from_file into a root with existing content (vnaproperty(3): replacing any previous content)" : "import_yaml_from_string into a root with existing content (vnaproperty(3): replacing any existing content)", text);
         }
         // 4. independent reader
@@ -689,22 +714,22 @@ struct H {
         NoLeakCheck nl;      // see Cal
         CalNew nw;
         nw.n = vnacal_new_alloc(vcp, VNACAL_T8, 1, 1, 1);
-        PBT_CHECK(c, nw.n != nullptr, "C14.cal_setup", "vnacal_new_alloc failed: %s", log.text().c_str());
+        PBT_CHECK(c, nw.n != nullptr, "C14.cal_setup", "vnacal_new_alloc failed: %s", ascii(log.text()).c_str());
         double f = 1e9;
-        PBT_CHECK(c, vnacal_new_set_frequency_vector(nw.n, &f) == 0, "C14.cal_setup", "set_frequency_vector failed: %s", log.text().c_str());
+        PBT_CHECK(c, vnacal_new_set_frequency_vector(nw.n, &f) == 0, "C14.cal_setup", "set_frequency_vector failed: %s", ascii(log.text()).c_str());
         static const int std_[3] = {VNACAL_SHORT, VNACAL_OPEN, VNACAL_MATCH};
         static const double gamma[3] = {-1.0, 1.0, 0.0};
         for (int i = 0; i < 3; i++) {
             dcx mv = mkc(0.1 + 0.9 * gamma[i] / (1.0 - 0.2 * gamma[i]), 0.0);
             dcx *cell = &mv;
             dcx *const *m = &cell;
-            PBT_CHECK(c, vnacal_new_add_single_reflect_m(nw.n, m, 1, 1, std_[i], 1) == 0, "C14.cal_setup", "add_single_reflect_m failed: %s", log.text().c_str());
+            PBT_CHECK(c, vnacal_new_add_single_reflect_m(nw.n, m, 1, 1, std_[i], 1) == 0, "C14.cal_setup", "add_single_reflect_m failed: %s", ascii(log.text()).c_str());
         }
-        PBT_CHECK(c, vnacal_new_solve(nw.n) == 0, "C14.cal_setup", "vnacal_new_solve failed: %s", log.text().c_str());
+        PBT_CHECK(c, vnacal_new_solve(nw.n) == 0, "C14.cal_setup", "vnacal_new_solve failed: %s", ascii(log.text()).c_str());
         int rc = vnacal_add_calibration(vcp, "cal0", nw.n);
-        PBT_CHECK(c, rc >= 0, "C14.cal_setup", "vnacal_add_calibration failed: %s", log.text().c_str());
+        PBT_CHECK(c, rc >= 0, "C14.cal_setup", "vnacal_add_calibration failed: %s", ascii(log.text()).c_str());
         int ci = vnacal_find_calibration(vcp, "cal0");
-        PBT_CHECK(c, ci >= 0, "C14.cal_setup", "vnacal_find_calibration failed: %s", log.text().c_str());
+        PBT_CHECK(c, ci >= 0, "C14.cal_setup", "vnacal_find_calibration failed: %s", ascii(log.text()).c_str());
         return ci;
     }
 
@@ -742,7 +767,7 @@ struct H {
         }
         log.clear();
         int rc = vnacal_save(a.v, path);
-        PBT_CHECK(c, rc == 0, "C14.vnacal_save_failed", "vnacal_save failed (callback: %s) global %s", clip(log.text(), 500).c_str(), clip(show(gmodel), 1000).c_str());
+        PBT_CHECK(c, rc == 0, "C14.vnacal_save_failed", "vnacal_save failed (callback: %s) global %s", clip(ascii(log.text()), 500).c_str(), clip(ashow(gmodel), 1000).c_str());
         std::string text;
         {
             struct stat st; PBT_CHECK(c, fstat(mf.fd, &st) == 0, "harness.error", "fstat failed");
@@ -751,19 +776,19 @@ struct H {
             PBT_CHECK(c, n == (ssize_t)text.size(), "harness.error", "pread failed");
         }
         expect_quiet(log, "C14.export_reported_error", "successful vnacal_save", text);
-        c.note("saved calibration file: %s", clip(esc(text), 1800).c_str());
-        PBT_CHECK(c, decode_utf8(text, nullptr) && text.find('\0') == std::string::npos, "C14.export_invalid_utf8", "saved file contains NUL or is not valid UTF-8: %s", clip(esc(text), 1500).c_str());
+        c.note("saved calibration file: %s", clip(aesc(text), 1800).c_str());
+        PBT_CHECK(c, decode_utf8(text, nullptr) && text.find('\0') == std::string::npos, "C14.export_invalid_utf8", "saved file contains NUL or is not valid UTF-8: %s", clip(aesc(text), 1500).c_str());
         dump_corpus("vnacal", text);
         ErrLog log2;
         Cal b;
         if (with_cal) { NoLeakCheck nl; b.v = vnacal_load(path, errlog_fn, &log2); }
         else b.v = vnacal_load(path, errlog_fn, &log2);
-        PBT_CHECK(c, b.v != nullptr, "C14.vnacal_load_failed", "vnacal_load refused the file written by vnacal_save (callback: %s)\n--- file ---\n%s", clip(log2.text(), 500).c_str(), clip(esc(text), 1500).c_str());
+        PBT_CHECK(c, b.v != nullptr, "C14.vnacal_load_failed", "vnacal_load refused the file written by vnacal_save (callback: %s)\n--- file ---\n%s", clip(ascii(log2.text()), 500).c_str(), clip(aesc(text), 1500).c_str());
         expect_quiet(log2, "C14.import_reported_error", "successful vnacal_load", text);
         expect_tree(vnacal_property_get_subtree(b.v, -1, "."), gmodel, "C14.vnacal_global_differs", "global properties after vnacal_save / vnacal_load", text);
         if (with_cal) {
             int cj = vnacal_find_calibration(b.v, "cal0");
-            PBT_CHECK(c, cj >= 0, "C14.vnacal_load_failed", "calibration cal0 missing after load (callback: %s)", log2.text().c_str());
+            PBT_CHECK(c, cj >= 0, "C14.vnacal_load_failed", "calibration cal0 missing after load (callback: %s)", ascii(log2.text()).c_str());
             expect_tree(vnacal_property_get_subtree(b.v, cj, "."), cmodel, "C14.vnacal_cal_differs", "calibration properties after vnacal_save / vnacal_load", text);
         }
         check_yamlcpp(text, gmodel, "vnacal_save (global properties)", "properties");
@@ -777,7 +802,7 @@ struct H {
         Stats st; st.walk(model, 0);
         st.labels(c, model, "");
         if (st.nontrivial()) c.nontrivial();
-        if (c.want_desc) c.note("tree: %s", clip(show(model), 1800).c_str());
+        if (c.want_desc) c.note("tree: %s", clip(ashow(model), 1800).c_str());
         // plain only | + vnacal global | + vnacal global and per-calibration.  The calibration route is kept
         // rare because its (ignored, see Cal) leaks make the engine run a 50 ms LeakSanitizer pass per case.
         int route = c.weighted({14, 5, 1});
@@ -789,7 +814,7 @@ struct H {
                 cmodel = tg.gen_tree(2 + c.size / 5);
                 Stats s2; s2.walk(cmodel, 0); s2.labels(c, cmodel, "cal-");
                 if (s2.nontrivial()) c.nontrivial();
-                if (c.want_desc) c.note("calibration tree: %s", clip(show(cmodel), 1800).c_str());
+                if (c.want_desc) c.note("calibration tree: %s", clip(ashow(cmodel), 1800).c_str());
                 c.label("route:vnacal-global+calibration");
             } else c.label("route:vnacal-global");
             vnacal_roundtrip(model, cmodel, route == 2);
